@@ -157,16 +157,19 @@ def build_dag(case, maxc=1, is_async=False, mk=None, attrs=None):
                 elif viol["via"] == "flag":
                     kw["twz_active"] = src
             v[i] = fs[i](*args, **kw)
-            if viol is not None and viol["dst"] == i and viol["via"] in ("subarg", "subflag"):
+            if viol is not None and viol["dst"] == i and viol["via"] in SUBVIA:
                 # the value crosses the boundary of a nested DAG: as its argument, or as the flag of the call
+                # (of a nested DAG with a parameter, or without any)
                 if viol["via"] == "subarg":
                     vsub(v[viol["src"]])
-                else:
+                elif viol["via"] == "subflag":
                     vsub(7, twz_active=v[viol["src"]])
+                else:
+                    vsub0(twz_active=v[viol["src"]])
         return tuple(v[i] for i in range(n))
 
-    vsub = None
-    if viol is not None and viol["via"] in ("subarg", "subflag"):
+    vsub = vsub0 = None
+    if viol is not None and viol["via"] in SUBVIA:
         vs = (mk or tz.mknode)("vs", lambda *a, **k: ("vs",) + tuple(a))
 
         def vsubdesc(x):
@@ -174,6 +177,13 @@ def build_dag(case, maxc=1, is_async=False, mk=None, attrs=None):
         vsubdesc.__qualname__ = "vsub"
         vsubdesc.__name__ = "vsub"
         vsub = tawazi.dag(vsubdesc)
+        vs0 = (mk or tz.mknode)("vs0", lambda *a, **k: ("vs0",) + tuple(a))
+
+        def vsub0desc():
+            return vs0()
+        vsub0desc.__qualname__ = "vsub0"
+        vsub0desc.__name__ = "vsub0"
+        vsub0 = tawazi.dag(vsub0desc)
 
     desc.__qualname__ = "gdesc"
     desc.__name__ = "gdesc"
@@ -299,7 +309,16 @@ for case in cases:
         order = [e[1] for e in ctl.trace if e[0] == "XENTER"]
     except BaseException as e:
         order = ["ERR " + type(e).__name__]
-    out.append(dict(cp=t["cp"], order=order))
+    xorder = None
+    try:
+        d2, _fs2 = kgraph.build_dag(case)  # a fresh instance: the call above has stored the setup results of d
+        ex = d2.executor()
+        ctl = tz.Ctl(free_run=True)
+        st = tz.run_controlled(lambda: ex(), ctl)
+        xorder = [e[1] for e in ctl.trace if e[0] == "XENTER"]
+    except BaseException as e:
+        xorder = ["ERR " + type(e).__name__]
+    out.append(dict(cp=t["cp"], order=order, xorder=xorder))
 json.dump(out, open(sys.argv[2], "w"))
 """
 
@@ -321,7 +340,8 @@ def other_seed_tables(cases, seed, repo):
                 os.remove(f)
 
 
-COMBOS = [(h, v) for h in ("node", "param") for v in ("arg", "kw", "flag", "subarg", "subflag") if not (h == "param" and v in ("subarg", "subflag"))]
+SUBVIA = ("subarg", "subflag", "subflag0")
+COMBOS = [(h, v) for h in ("node", "param") for v in ("arg", "kw", "flag") + SUBVIA if not (h == "param" and v in SUBVIA)]
 
 
 def gen_violation(rng, case, k=None):
